@@ -366,6 +366,17 @@ def oracle_sphere(fn, rng, n=400):
                 return True, 'antipodal', 'gcd(%r,%r,%r,%r)=%r for an antipodal pair' % (ra1, dec1, (ra1 + 180.0) % 360.0, -dec1, ga)
             if not (g0 == 0):
                 return True, 'identical-points', 'gcd of a point with itself = %r at (%r, %r)' % (g0, ra1, dec1)
+            # nearly antipodal: the antipode displaced by 1e-9 .. 1e-3 deg in an arbitrary direction
+            off = 10 ** rng.uniform(-9, -3)
+            ang = rng.uniform(0, 2 * math.pi)
+            dec1n = max(-89.0, min(89.0, dec1))
+            ra2, dec2 = (ra1 + 180.0 + off * math.sin(ang) / max(0.02, math.cos(math.radians(dec1n)))) % 360.0, -dec1n + off * math.cos(ang)
+            gn = float(at.gcd(ra1, dec1n, ra2, dec2))
+            p, q = vec(ra1, dec1n), vec(ra2, dec2)
+            cr = (p[1] * q[2] - p[2] * q[1], p[2] * q[0] - p[0] * q[2], p[0] * q[1] - p[1] * q[0])
+            wantn = math.degrees(math.atan2(math.sqrt(sum(x * x for x in cr)), sum(a * b for a, b in zip(p, q))))
+            if not (abs(gn - wantn) <= 1e-9):
+                return True, 'near-antipodal', 'gcd(%r,%r,%r,%r)=%r, vector formula %r (%.2g deg from the antipode)' % (ra1, dec1n, ra2, dec2, gn, wantn, 180 - wantn)
     for it in range(n):
         ra1, dec1, ra2, dec2 = rng.uniform(0, 360), rng.uniform(-89, 89), rng.uniform(0, 360), rng.uniform(-89, 89)
         if it % 4 == 0:
@@ -423,6 +434,28 @@ def run(rep):
     # random pairs, a quarter of them 1e-9 .. 1e-2 deg apart, tolerance 1e-9 deg as stated
     rep.kernel('K-replay-oracle', functions=[F + ':gcd', F + ':bear', F + ':translate'], bounds='400 random pairs per function (100 of them close pairs down to 1e-9 deg), concrete floats',
                assumes=['concrete executions: rounding behaviour is outside the real-arithmetic kernels'])
+    # sexagesimal strings at the places where two roundings can disagree: whole arc-minutes / time-minutes, whole degrees, values
+    # that round up to the next minute, plus random values
+    rng_ = random.Random(rep.seed + 5)
+    sdone = False
+    for kind, lo, hi, unit in (('dms', -90.0, 90.0, 1.0), ('hms', 0.0, 360.0, 15.0)):
+        xs = []
+        for _ in range(400):
+            d_ = rng_.randint(0, int(hi / unit) - 1)
+            m_ = rng_.randint(0, 59)
+            sgn = -1 if (kind == 'dms' and rng_.random() < 0.5) else 1
+            xs.append(sgn * unit * (d_ + m_ / 60.0))                                  # on a whole minute
+            xs.append(sgn * unit * (d_ + m_ / 60.0 + rng_.choice([59.996, 59.9951, 0.004, 30.0]) / 3600.0))
+            xs.append(rng_.uniform(lo, hi))
+        for xf in xs:
+            if not (lo <= xf <= hi) or (kind == 'hms' and xf >= 360):
+                continue
+            bad, cls, detail = oracle_sexa(kind, xf)
+            rep.validated_runs(1)
+            if bad and not sdone:
+                rep.finding('C17/K-sexa/dec2%s:%s' % (kind, cls), dict(kind=kind, x=xf), 'dec2%s(%r) = %s violates %s' % (kind, xf, detail, cls), kernel='K-replay-oracle')
+                sdone = True
+                break
     for fn in ('gcd', 'bear', 'translate'):
         bad, cls, detail = oracle_sphere(fn, random.Random(rep.seed + 17))
         rep.validated_runs(400)
